@@ -165,7 +165,7 @@ func RunParent(m *Monitor, o ParentOpts) int {
 		}
 		crashed := cr.state == nil || !cr.state.Done
 		if crashed {
-			body := cr.crumb + "\n---- child log tail ----\n" + tail(cr.log, 200)
+			body := cr.crumb + "\n---- child log head ----\n" + firstLinesNL(cr.log, 120) + "\n---- child log tail ----\n" + tail(cr.log, 80)
 			name := fmt.Sprintf("%s-s%d-b%d-crash.txt", o.Tier, o.Seed, cr.batch)
 			switch {
 			case cr.timeout:
@@ -174,6 +174,10 @@ func RunParent(m *Monitor, o ParentOpts) int {
 				os.WriteFile(filepath.Join(replayDir, "watchdog-"+name), []byte(body), 0o644)
 			case strings.Contains(cr.log, "all goroutines are asleep - deadlock!"):
 				addViolation("deadlock", "Go runtime: all goroutines are asleep - deadlock!", body, name)
+			case (strings.Contains(cr.log, "panic:") || strings.Contains(cr.log, "fatal error:") || strings.Contains(cr.log, "[signal ")) && !strings.Contains(cr.log, "github.com/biogo/biogo/"):
+				total.Inconcl = append(total.Inconcl, fmt.Sprintf("batch %d: harness crashed with no biogo frame on any stack: %s", cr.batch, firstMatch(cr.log, "panic:", "fatal error:")))
+				os.MkdirAll(replayDir, 0o755)
+				os.WriteFile(filepath.Join(replayDir, "harness-"+name), []byte(body), 0o644)
 			case strings.Contains(cr.log, "panic:") || strings.Contains(cr.log, "fatal error:") || strings.Contains(cr.log, "[signal "):
 				addViolation("crash", "child process crashed: "+firstMatch(cr.log, "panic:", "fatal error:"), body, name)
 			case len(cr.races) > 0 && cr.exit == 66:
@@ -365,6 +369,14 @@ func tail(s string, n int) string {
 	lines := strings.Split(s, "\n")
 	if len(lines) > n {
 		lines = lines[len(lines)-n:]
+	}
+	return strings.Join(lines, "\n")
+}
+
+func firstLinesNL(s string, n int) string {
+	lines := strings.Split(s, "\n")
+	if len(lines) > n {
+		lines = lines[:n]
 	}
 	return strings.Join(lines, "\n")
 }
